@@ -11,7 +11,7 @@ META = {
                    'describes, plus the constant the specification prescribes, and the reader-side closure subtracts the same constant '
                    '(table spec/length_fields.json from MS-RDPBCGR / T.123 / X.224); (R04.2) fields whose size the specification fixes are '
                    'initialised with a value whose length is that compile-time constant; (R04.3) NTLM length/offset pairs (rule R15.1 shared '
-                   'with C15); (R04.6) both text encoders emit the code units of str::encode_utf16, little-endian, with no `char as u16` narrowing; (R04.4) string fields: the client name is limited in UTF-16 code units before being padded to 32 bytes with a '
+                   'with C15); (R04.6) both text encoders emit the code units of str::encode_utf16, little-endian, with no `char as u16` narrowing; (R04.7) the Client Info flag word announces INFO_UNICODE in every mode and auto-logon only adds its own bit (rule R17.4); (R04.4) string fields: the client name is limited in UTF-16 code units before being padded to 32 bytes with a '
                    'terminator, the Client Info strings carry a two-byte terminator excluded from their cb* counts; (R04.5) PER length form '
                    'thresholds (rule shared with C18) and frame headers (rules R14.3/R14.4 shared with C14). Constant field values, flag '
                    'semantics and yasna\'s BER are not decided.',
@@ -221,6 +221,8 @@ def run(ctx):
     ctx.include(c15.run, ('R15.1',), 'R04.3')
 
     rule_utf16(ctx, 'R04.6')
+    import c17
+    ctx.include(c17.run, ('R17.4',), 'R04.7')
     # ---- R04.4 strings ---------------------------------------------------------------------------------------------------
     cd = ctx.body('core::gcc::client_core_data')
     # the text that is converted for clientName is limited in UTF-16 code units (<= 15) before the 32-byte resize
